@@ -142,7 +142,7 @@ def run(ctx):
                           c.where(),
                           '%s drops the byte count returned by %s: a short write silently truncates the data'
                           % (body.path, c.callee))
-    ctx.floor('R14.1', 'count-returning write call sites (Stream::write wrapper arms)', n_cnt, 2)
+    ctx.floor('R14.1', 'count-returning write call sites (Stream::write wrapper arms)', n_cnt, 1)
 
     # ---- R14.2: no Result dropped in the write chain --------------------------------------
     n_res = 0
